@@ -624,13 +624,25 @@ func (c *clipperBase) doSplitOp(outrec *OutRec, splitOp *OutPt) {
 		prevOp.next = newOp
 	}
 
-	if !(absArea2 > 1) || (!(absArea2 > absArea1) && (area2 > 0) != (area1 > 0)) {
+	keep := absArea2 > 1 && (absArea2 > absArea1 || (area2 > 0) == (area1 > 0))
+	isHole := false
+	if !keep && absArea2 > 1 {
+		// a smaller, oppositely oriented triangle is debris when it lies outside the remaining
+		// ring, but a hole touching the boundary when it lies inside: then it must be kept
+		mid := Point64{X: (ip.X + splitOp.pt.X + splitOp.next.pt.X) / 3, Y: (ip.Y + splitOp.pt.Y + splitOp.next.pt.Y) / 3}
+		keep = pointInOpPolygon(mid, prevOp) == IsInside
+		isHole = keep
+	}
+	if !keep {
 		vEvent("splitDiscard", []float64{area1, area2}, ip, splitOp.pt, splitOp.next.pt)
 		return
 	}
 
 	newOutRec := c.newOutRec()
 	newOutRec.owner = outrec.owner
+	if isHole {
+		newOutRec.owner = outrec
+	}
 	splitOp.outrec = newOutRec
 	splitOp.next.outrec = newOutRec
 
